@@ -39,6 +39,9 @@ enum CbFault {
     CountersFrom(u32),
     /// counter-0 marker with its top bit set (outcome not asserted, see DESIGN.md)
     FirstTopSet,
+    /// the very first word of the stream is corrupted into the marker 0xFF800000 (counter 0, top bit
+    /// set): it is then the FIRST counter-0 marker of the stream, ahead of the real one
+    BogusMarker0First,
     /// marker k >= 1 corrupted into ANOTHER VALID MARKER: bits of its 23-bit counter and/or its
     /// top bit flipped ("corrupted word" that is still an entry: no refusal can be expected, but
     /// no time may be reported across an inconsistent marker pair)
@@ -56,6 +59,7 @@ impl CbFault {
             CbFault::CorruptWord { .. } => "corrupt_word",
             CbFault::CountersFrom(_) => "no_counter0_marker",
             CbFault::FirstTopSet => "first_marker_top_set",
+            CbFault::BogusMarker0First => "bogus_counter0_marker_first",
             CbFault::CorruptMarker { flip_top: true, counter_xor: 0, .. } => "marker_top_bit_flipped",
             CbFault::CorruptMarker { .. } => "marker_counter_corrupted",
         }
@@ -191,6 +195,13 @@ fn written(b: &Board) -> Vec<W> {
                 }
             }
         }
+        Some(CbFault::BogusMarker0First) => {
+            if !v.is_empty() && !matches!(v[0], W::Marker { .. }) {
+                v[0] = W::Marker { top: true, counter: 0 };
+            } else {
+                v.insert(0, W::Marker { top: true, counter: 0 });
+            }
+        }
         Some(CbFault::FirstTopSet) => {
             if let Some(W::Marker { top, .. }) = v.iter_mut().find(|w| matches!(w, W::Marker { counter: 0, .. })) {
                 *top = true;
@@ -238,7 +249,10 @@ struct Row {
 
 enum Expect {
     Fail(&'static str),
-    Unasserted,
+    /// the first counter-0 marker has its top bit set: the statement neither demands refusal nor
+    /// says what the times are; IF the program accepts the stream, the rows (board, channel, edge,
+    /// in stream order after that first counter-0 marker) are still what the statement says
+    Unasserted(Vec<Row>),
     Rows(Vec<Row>),
 }
 
@@ -253,9 +267,7 @@ fn expect_board(b: &Board, v: &[W]) -> Expect {
     let Some(i0) = v.iter().position(|w| matches!(w, W::Marker { counter: 0, .. })) else {
         return Expect::Fail("no counter-0 marker");
     };
-    if let W::Marker { top: true, .. } = v[i0] {
-        return Expect::Unasserted;
-    }
+    let first_top_set = matches!(v[i0], W::Marker { top: true, .. });
     let name = format!("cb{:02}", b.id);
     let mut rows = Vec::new();
     let mut prev: Option<(bool, u32)> = None;
@@ -273,6 +285,9 @@ fn expect_board(b: &Board, v: &[W]) -> Expect {
             }
             _ => {}
         }
+    }
+    if first_top_set {
+        return Expect::Unasserted(rows);
     }
     Expect::Rows(rows)
 }
@@ -481,6 +496,7 @@ impl Check for C20Check {
                         word: *r.pick(&[0u32, 0x7F12_3456, 0xBB00_0001, 0xFD00_0000, 0xFE00_003D, 0xFE00_0000, 0x3C00_00FE, 0xC512_3456]),
                     },
                     7 => CbFault::CountersFrom(r.range(1, 3) as u32),
+                    _ if index % 2 == 0 => CbFault::BogusMarker0First,
                     _ => CbFault::FirstTopSet,
                 })
             } else {
@@ -548,11 +564,15 @@ impl Check for C20Check {
         // overall expectation
         let mut expect_fail: Option<&'static str> = None;
         let mut unasserted = false;
+        let mut unasserted_rows: Vec<Vec<Row>> = Vec::new();
         let mut exp_rows: Vec<Vec<Row>> = Vec::new();
         for e in &expects {
             match e {
                 Expect::Fail(w) => expect_fail = Some(w),
-                Expect::Unasserted => unasserted = true,
+                Expect::Unasserted(r) => {
+                    unasserted = true;
+                    unasserted_rows.push(r.clone());
+                }
                 Expect::Rows(r) => exp_rows.push(r.clone()),
             }
         }
@@ -667,6 +687,24 @@ impl Check for C20Check {
                 stats.probe("hard_io_fault_delivered_but_program_reports_success");
             }
             if unasserted {
+                // accepted all the same? then one row per timestamp after the FIRST counter-0 marker
+                if let (true, Some(csv), None) = (res.success, res.csv.as_ref(), expect_fail) {
+                    if let Some(rows) = csv_rows(csv, &["board", "channel", "leading_edge"]) {
+                        for want in &unasserted_rows {
+                            let Some(name) = want.first().map(|r| r.board.clone()) else { continue };
+                            let got: Vec<(String, String)> = rows.iter().filter(|r| r[0] == name).map(|r| (r[1].clone(), r[2].clone())).collect();
+                            let exp: Vec<(String, String)> = want.iter().map(|r| (r.channel.to_string(), r.leading.to_string())).collect();
+                            if got != exp {
+                                viol.push(Violation {
+                                    invariant: "C20.I2-rows".into(),
+                                    signature: format!("rows-after-first-counter0-marker:{fault_kind}"),
+                                    detail: format!("stream whose first counter-0 marker has its top bit set was accepted with {} rows for {name}; {} timestamps follow that marker", got.len(), exp.len()),
+                                    narrowed: narrowed.clone(),
+                                });
+                            }
+                        }
+                    }
+                }
                 continue;
             }
             match expect_fail {
